@@ -48,6 +48,14 @@ def nodeOfJson (j : Json) : Except String Node := do
     pure (.layer kind w b shape act ap)
   | _ => throw s!"unknown node {t}"
 
+/-- the constants of a node on the `is_inference=True` route (`wvals`, `bvals`, `unused_b`) -/
+def constsOfJson (j : Json) : Except String InfConsts := do
+  let lst (k : String) : Except String (List Rat) :=
+    match optField j k with
+    | .null => pure []
+    | _ => getRatList j k
+  pure { wv := ← lst "wvals", bv := ← lst "bvals", unusedBias := ← typeOfJson (optField j "unused_b") }
+
 def optRec (q : Option QRec) : Json := match q with | none => Json.null | some r => qrecToJson r
 
 def ltToJson (lt : LayerTypes) : Json :=
@@ -79,6 +87,24 @@ def handle (j : Json) : Except String Json := do
     -- source quantizer (converted, put on the first edge, re-made by the consumer), nodes
     let some src ← typeOfJson (← j.getObjVal? "src") | throw "no source quantizer"
     let nodes ← (← (← j.getObjVal? "nodes").getArr?).toList.mapM nodeOfJson
+    let inference := (getBool j "inference").toOption.getD false
+    if inference then
+      -- the `if is_inference:` block runs per layer while the map is built, before the auto_po2 assert
+      -- of the same layer; an IndexError of an earlier layer wins over an AssertionError of a later one
+      let cs ← (← (← j.getObjVal? "nodes").getArr?).toList.mapM constsOfJson
+      let pairs := nodes.zip cs
+      let firstAssert := nodes.findIdx autoPo2Rejects
+      let firstIndex := pairs.findIdx fun (n, c) =>
+        match inferNode n c with | .indexError => true | .ok _ => false
+      if firstIndex < pairs.length ∧ firstIndex ≤ firstAssert then
+        return Json.mkObj [("err", Json.str "IndexError")]
+      if firstAssert < nodes.length then return Json.mkObj [("err", Json.str "AssertionError")]
+      match chainTypesInf (remake src) pairs with
+      | .indexError => return Json.mkObj [("err", Json.str "IndexError")]
+      | .ok (some rs, counts) =>
+        return Json.mkObj [("reports", Json.arr (rs.map reportToJson).toArray),
+          ("counts", Json.arr (counts.map fun (a, b) => Json.arr #[Json.num a, Json.num b]).toArray)]
+      | .ok (none, _) => return Json.mkObj [("err", Json.str "bad-mode")]
     if nodes.any autoPo2Rejects then return Json.mkObj [("err", Json.str "AssertionError")]
     match chainTypes (remake src) nodes with
     | some rs => pure <| Json.mkObj [("reports", Json.arr (rs.map reportToJson).toArray)]
